@@ -1182,6 +1182,14 @@ def replay(cand):
                         x = np.full_like(y, 1024.5)
                         lon, lat = Wh.image2sky(x, y)
                         badi = np.where((lon < 0.0) | (lon >= 360.0))[0]
+                        if cfg[1] == "scalar" and not badi.size:
+                            # the scalar branch has its own wrap: the reference pixel and a coarser set of
+                            # pixels on the reference meridian through scalar calls
+                            for xs, ys in [(1024.5, 2048.5)] + [(1024.5, float(yy)) for yy in range(1, 4097, 64)]:
+                                ls = float(Wh.image2sky(xs, ys)[0])
+                                if not (0.0 <= ls < 360.0):
+                                    return bad("range:longitude:scalar", "CRVAL=(%r, %r), CD=%r: scalar image2sky(%r, %r) longitude = %r, not in [0, 360); kernel: rotated longitude %r wraps to %r"
+                                               % (crval1, crval2, cd, xs, ys, ls, v, float(lo)))
                         if badi.size:
                             i = int(badi[0])
                             ls = float(Wh.image2sky(float(x[i]), float(y[i]))[0])
